@@ -311,6 +311,13 @@ def loops_rule(prog, rep):
             md = ([norm(a_) for a_ in calls[0].args[:-1]] + list(md[0]),) + tuple(md[1:])
         ok = md == (["datastore", "namespace"], "self.args", "_.interpret(datastore, namespace)", None)
     rep.check(ok, "LOOPS", fi.short, "argument evaluation", "all of self.args, in order, after (datastore, namespace)", f"a call does not apply the built-in to the values of all of its arguments in written order (argument list: {md})", fi.loc())
+    # ... and what the call expression evaluates to is what the built-in returned: no return that answers in its place
+    if len(calls) == 1:
+        for r in [r for r in walk_own(fi.node) if isinstance(r, ast.Return)]:
+            v = r.value
+            if isinstance(v, ast.Name) and single_def(fi, v.id) is not None:
+                v = single_def(fi, v.id)
+            rep.check(v is calls[0], "LOOPS", fi.short, f"return {norm(r.value)[:40] if r.value is not None else ''}", "the value of a call is the built-in's result", f"`{norm(r)[:60]}` does not return the result of `{norm(calls[0])[:50]}`: for the calls that reach it the expression evaluates to something the built-in did not compute (sum_durations([]) is a timedelta, nop() is 1, not an empty list)", fi.loc(r))
     fi = prog.func("QList.interpret")
     rets = [r for r in walk_own(fi.node) if isinstance(r, ast.Return)]
     md = map_desc(fi, rets[0].value) if len(rets) == 1 and rets[0].value is not None else None
@@ -483,6 +490,24 @@ def _wrapper_fold(g, h):
     if [x.arg for x in a.args] != ["datastore", "namespace"] or a.vararg is None or a.vararg.arg != "args":
         return f"wrapper signature is {norm(a)}"
     out = {}
+    # the argument tuple may live under a name of its own (`call_args = (datastore, namespace, *args)` ... `f(*call_args)`):
+    # read it under the name `args` when the *args parameter is used for nothing else
+    body = g.node.body
+    starred = [x.value.id for r_ in walk_own(g.node) if isinstance(r_, ast.Return) and isinstance(r_.value, ast.Call) for x in r_.value.args if isinstance(x, ast.Starred) and isinstance(x.value, ast.Name)]
+    if starred and len(set(starred)) == 1 and starred[0] != "args":
+        X = starred[0]
+        arg_reads = [x for x in walk_own(g.node) if isinstance(x, ast.Name) and x.id == "args" and isinstance(x.ctx, ast.Load)]
+        first = next((st for st in g.node.body if isinstance(st, (ast.Assign, ast.AnnAssign)) and norm(st.targets[0] if isinstance(st, ast.Assign) else st.target) == X), None)
+        if first is not None and first.value is not None and len(arg_reads) == 1 and any(x is arg_reads[0] for x in ast.walk(first.value)):
+            copy_ = ast.parse(ast.unparse(g.node)).body[0]
+            for x in ast.walk(copy_):
+                if isinstance(x, ast.Name) and x.id == X:
+                    x.id = "args"
+            for i_, st in enumerate(copy_.body):
+                if isinstance(st, ast.AnnAssign) and st.value is not None and norm(st.target) == "args":
+                    copy_.body[i_] = ast.copy_location(ast.Assign(targets=[st.target], value=st.value), st)
+            ast.fix_missing_locations(copy_)
+            body = copy_.body
 
     lists = {}  # other local lists / tuples built from the injected values (per case)
 
@@ -567,7 +592,7 @@ def _wrapper_fold(g, h):
                         return f"unrecognised statement `{norm(st)[:80]}`"
                 return None
 
-            r = run(g.node.body)
+            r = run(body)
             if r:
                 return r
             if result is None:
@@ -682,6 +707,20 @@ def registry_rule(prog, rep):
     for fi in reg:
         own = [p for p in fi.params if fi.annotations.get(p) not in ("Datastore", "TNamespace")]
         rets = [r for r in walk_own(fi.node) if isinstance(r, ast.Return)]
+        if len(rets) > 1 and fi.node.body and isinstance(fi.node.body[-1], ast.Return) and isinstance(fi.node.body[-1].value, ast.Call) and [x for x in prog.resolve_call(fi.node.body[-1].value, fi) if x.cls is None]:
+            # a wrapper with a short cut: besides `return transform(args)` it has a return that hands an argument back as the
+            # answer, under a test of OTHER arguments only — it answers for the transform, for the inputs that test selects
+            from ..rules_raise import _guard_names
+
+            last = fi.node.body[-1]
+            fwd = {x.id for x in ast.walk(last.value) if isinstance(x, ast.Name)}
+            for r in rets:
+                if r is last or not (isinstance(r.value, ast.Name) and r.value.id in own and r.value.id in fwd):
+                    continue
+                gn = _guard_names(r, fi.node)
+                if gn and r.value.id not in gn and not any(g_.startswith(r.value.id + ".") or f"({r.value.id})" in g_ for g_ in gn):
+                    rep.violation("REGISTRY", fi.short, f"return {r.value.id}", f"`return {r.value.id}` under a test of {sorted(gn)[:3]}: for those arguments the built-in hands its argument back instead of the result of `{norm(last.value)[:50]}`; the two differ whenever the transform does something for them (a count of 0 keeps no event, an empty key list still merges)", fi.loc(r))
+            rets = [last]
         if len(rets) != 1 or not isinstance(rets[0].value, ast.Call):
             continue
         c = rets[0].value
